@@ -400,12 +400,21 @@ where
 
             sponge.absorb(&to_bytes!(&commitment.root).map_err(|_| Error::TranscriptError)?);
 
+            // The opened combination (and the well-formedness vector) must be
+            // messages of the code, i.e. have exactly one entry per column.
+            if proof.opening.v.len() != n_cols {
+                return Err(Error::InvalidCommitment);
+            }
+
             let out = if vk.check_well_formedness() {
                 if proof.well_formedness.is_none() {
                     return Err(Error::InvalidCommitment);
                 }
                 let tmp = &proof.well_formedness.as_ref();
                 let v = tmp.unwrap();
+                if v.len() != n_cols {
+                    return Err(Error::InvalidCommitment);
+                }
                 let r = sponge.squeeze_field_elements::<F>(n_rows);
                 // Upon sending `v` to the Verifier, add it to the sponge. The claim is that v = r.M.
                 sponge.absorb(&v);
